@@ -56,7 +56,7 @@ ANCHORS = {
                         "manifest.save(&manifest_path)", "self.compact_old_wal_segments(", "manifest.save(&manifest_path)",
                         "inserts_since_snapshot.write() = 0"],
     "rotate_wal_if_needed": ["bytes_written() < self.max_wal_size_bytes", "WalWriter::create_with_error_handler(", "self.manifest_lock.lock()",
-                             "Manifest::load(&manifest_path)", "manifest.wal_segments.push(new_wal_name)", "manifest.save(&manifest_path)",
+                             "Manifest::load(&manifest_path)", "manifest.wal_segments.push(new_wal_name", "manifest.save(&manifest_path)",
                              "*wal_guard = new_writer"],
     "compact_old_wal_segments": ["manifest.wal_segments.len().saturating_sub(1)", "if idx == active_wal_index {", "segments_to_keep.push(wal_name.clone())",
                                  "entry.seq_no > 0 && snapshot_last_wal_seq > 0", "entry.seq_no <= snapshot_last_wal_seq", "if all_entries_covered {",
